@@ -535,7 +535,9 @@ pub fn actions_for(m: &ClientModel, max_outstanding: usize, extended: bool) -> V
     for shape in 0..3 {
         a.push(CAct::OnStatusMalformed { shape });
     }
-    let mut msids = vec![42u32];
+    // another stream, the active one (or the id a later createStream answer will carry), and message stream 0
+    // (what "no stream" looks like when an Option is flattened)
+    let mut msids = vec![42u32, 0];
     if let Some(x) = m.active {
         msids.push(x);
     } else {
